@@ -151,15 +151,15 @@ bool splinetable<Alloc>::read_fits_mem(void* buffer, size_t buffer_size){
 			fits_report_error(stderr, error);
 		}
 	} cleanup(fits);
-	return(read_fits_core(fits, "memory 'file'"));
+	return(read_fits_core(fits, "memory 'file'", buffer_size));
 }
 	
 template<typename Alloc>
-bool splinetable<Alloc>::read_fits_core(fitsfile* fits, const std::string& filePath){
+bool splinetable<Alloc>::read_fits_core(fitsfile* fits, const std::string& filePath, size_t fileSize){
 	//A failed read must leave this object empty, reusable and destructible,
 	//not half built.
 	try{
-		return(read_fits_core_impl(fits, filePath));
+		return(read_fits_core_impl(fits, filePath, fileSize));
 	}catch(...){
 		release_storage();
 		throw;
@@ -167,8 +167,25 @@ bool splinetable<Alloc>::read_fits_core(fitsfile* fits, const std::string& fileP
 }
 
 template<typename Alloc>
-bool splinetable<Alloc>::read_fits_core_impl(fitsfile* fits, const std::string& filePath){
+bool splinetable<Alloc>::read_fits_core_impl(fitsfile* fits, const std::string& filePath, size_t fileSize){
 	int error = 0;
+	
+	//CFITSIO does not check reads from memory 'files' against the size of the
+	//buffer, so a header which declares more data than the buffer holds must
+	//be caught here.
+	auto check_data_present=[&](uint64_t elements, uint64_t elementSize){
+		if(!fileSize)
+			return;
+		LONGLONG headstart=0, datastart=0, dataend=0;
+		int status=0;
+		fits_get_hduaddrll(fits, &headstart, &datastart, &dataend, &status);
+		//data are read in whole 2880 byte FITS records
+		const uint64_t record=2880;
+		if(status!=0 || datastart<0 || (uint64_t)datastart>fileSize
+		   || elements>(fileSize-(uint64_t)datastart)/elementSize
+		   || ((elements*elementSize+record-1)/record)*record>fileSize-(uint64_t)datastart)
+			throw std::runtime_error("Data declared in header extends beyond the end of "+filePath);
+	};
 	//if (error != 0)
 	//	throw std::runtime_error("Failed to move to HDU 1 in "+filePath);
 	
@@ -343,6 +360,7 @@ bool splinetable<Alloc>::read_fits_core_impl(fitsfile* fits, const std::string& 
 	coefficients = allocate<float>(ncoeffs);
 	
 	std::vector<long> fpixel(ndim,1);
+	check_data_present(ncoeffs,sizeof(float));
 	fits_read_pix(fits, TFLOAT, fpixel.data(), ncoeffs, NULL,
 				  &coefficients[0], NULL, &error);
 	
@@ -380,6 +398,7 @@ bool splinetable<Alloc>::read_fits_core_impl(fitsfile* fits, const std::string& 
 		//TODO: should the 'off the end' entries of knots be set to zero?
 		
 		long fpix = 1;
+		check_data_present(nknots[i],sizeof(double));
 		fits_read_pix(fits, TDOUBLE, &fpix, nknots[i], NULL, &knots[i][0], NULL, &error);
 		if (error != 0)
 			throw std::runtime_error("Error reading knot vector "+std::to_string(i)+" data");
@@ -409,6 +428,7 @@ bool splinetable<Alloc>::read_fits_core_impl(fitsfile* fits, const std::string& 
 				extents[i][1] = knots[i][nknots[i] - order[i] - 1];
 			}
 		} else {
+			check_data_present(n_extents,sizeof(double));
 			fits_read_pix(fits, TDOUBLE, &fpix, n_extents, NULL,
 						  &extents[0][0], NULL, &ext_error);
 			if (ext_error!=0)
